@@ -20,7 +20,7 @@ TECHNIQUE = ('small-scope enumeration of save/load configurations + stateless ch
              'completion orders of the real loader running on a simulated multiprocessing pool')
 RULE = ('save/load: row counts 1..12 and {99,100,101} (T: 1..120, 999,1000,1001) x row lengths 1..7 x stride 1..8 x element rank '
         '1..3 x dtypes {int8,int32,int64,float32,float64,bool} x compression {0,1,9} x every ordered key subset of <=3 rows '
-        '(on 5-row arrays) x ndarray input x old-style file; load_as_concatenated: all length vectors in {1..3}^k, k=2,3 '
+        '(on 5-row arrays) x ndarray input x old-style file; every stored 1-D array also through the bulk loader load_h5_as_striped on a one-rank world (lengths and concatenated data); load_as_concatenated: all length vectors in {1..3}^k, k=2,3 '
         '(+ two k=4) x {xtc,h5} x stride {1,2,3} x atom selection x lengths hint x processes {1..4} x ALL completion orders; arrays returned earlier in a shard are re-read after all later loads; '
         'state=(configuration, schedule); non-trivial = ragged array with unequal rows and stride>1 / schedule with a '
         'non-default completion order')
@@ -28,7 +28,7 @@ ASSUMPTIONS = ['the simulated pool executes tasks in-process in the chosen order
                'multiprocessing.Pool does); the real pool is additionally run free for processes 1..4',
                'a one-row RaggedArray is documented to load back as the bare row (numpy array); compared as such',
                'bit-identical comparison (tobytes + dtype) everywhere']
-GUARDS = {'held_results': 20, 'ragged_stride': 100, 'keys_subset': 50, 'padding_boundary': 3, 'nondefault_order': 200, 'real_pool': 8,
+GUARDS = {'bulk_h5': 50, 'held_results': 20, 'ragged_stride': 100, 'keys_subset': 50, 'padding_boundary': 3, 'nondefault_order': 200, 'real_pool': 8,
           'no_hint': 50, 'atom_selection': 50, 'frame_kwarg': 5, 'old_style': 5}
 DTYPES = ('int8', 'int32', 'int64', 'float32', 'float64', 'bool')
 
@@ -139,6 +139,18 @@ def check_saveload(case, ctx):
             wl = [len(w) for w in want]
             if list(back.lengths) != wl:
                 ctx.violation('saveload:lengths', case, 'lengths %r != %r' % (list(back.lengths), wl))
+        if keys is None and rank == 1:
+            # the bulk HDF5 loader on a one-rank world: the same rows, concatenated, together with their lengths
+            from enspara.mpi import io as mio
+            ctx.ev()
+            ctx.guard('bulk_h5')
+            lens, data = mio.load_h5_as_striped(fn, stride=stride)
+            wl = [len(w) for w in want]
+            flat = np.concatenate(want)
+            if [int(x) for x in lens] != wl:
+                ctx.violation('bulk_h5:lengths', case, 'load_h5_as_striped lengths %r != %r (%d elements loaded)' % (list(lens), wl, len(data)))
+            elif np.asarray(data).dtype != flat.dtype or np.asarray(data).tobytes() != flat.tobytes():
+                ctx.violation('bulk_h5:data', case, 'load_h5_as_striped data %r != %r' % (np.asarray(data).tolist()[:12], flat.tolist()[:12]))
     except Exception as e:
         ctx.violation('saveload:raises:%s:%s' % (kind, type(e).__name__), case, 'raised %r on %r' % (e, case))
     finally:
